@@ -39,7 +39,7 @@ ASSUMPTIONS = ['RMSD values are compared with mdtraj\'s own rmsd on individually
                'the simulated memory always leaves room for the longest file plus one frame (the equality case is outside the statement)']
 REACH_EXPECTED = ['multi_batch_reassign', 'single_batch_reassign', 'centers_as_trajectory', 'centers_as_list', 'two_topologies',
                   'ragged_reassign_output', 'square_reassign_output', 'partition_square', 'partition_ragged', 'partition_after_mpi',
-                  'length1_trajectory', 'center_on_first_frame', 'center_on_last_frame', 'more_centers_than_frames', 'predict_new_data']
+                  'length1_trajectory', 'center_on_first_frame', 'center_on_last_frame', 'more_centers_than_frames', 'predict_new_data', 'predict_after_refit']
 
 
 def scenario(ctx):
@@ -384,6 +384,15 @@ def fam_assign(ctx):
         check_assign(res.assignments, res.distances, D, M.rtol_for(P.dtype) * 4)
         check_center_finder(ctx, U, res.assignments, res.distances, res.center_indices)
         ctx.hit('predict_new_data')
+        if t.flag():
+            # the same estimator object is fitted again on other data: predictions follow the new fit
+            X2 = M.gen_points(t, t.irange(max(2, K), 20), P.dim, P.dtype)     # k-medoids needs at least K frames
+            ctx.sut(est.fit, X2.copy())
+            res2 = ctx.sut(est.predict, Y)
+            Cs2 = [np.asarray(c) for c in est.centers_]
+            D2 = np.array([model(Y, c) for c in Cs2])
+            check_assign(res2.assignments, res2.distances, D2, M.rtol_for(P.dtype) * 4)
+            ctx.hit('predict_after_refit')
         ctx.scenario.update(P.describe(), family='assign', kind=kind, algo=algo, new_frames=len(Y))
         ctx.fp('predict', algo, P.X.tobytes(), Y.tobytes(), k, cutoff)
         if len(Cs) >= 2:
